@@ -209,6 +209,26 @@ def h_cross(B, cls="CPCCA", n=4, p=2, q=2, k=2, m=3, labels="disjoint", alpha=1.
         B.eq("transform(Y only)==transform(X,Y)[1]", ty, tr[1])
 
 
+def h_dataset_variable_order(B, n=4, m=2):
+    """new data given as a Dataset that lists the same variables in another order: a Dataset is a mapping by NAME, so the scores
+    are those of the fit-time order (or the call is refused) - never the numbers of a positional stacking"""
+    A = da2d(B, "xa", n, 2)
+    Bv = da2d(B, "xb", n, 1, feat="y", fcoords=[7.0])
+    model = M.single("EOF", n_modes=2, solver="full").fit(xr.Dataset({"A": A, "B": Bv}), "time")
+    An = da2d(B, "na", m, 2, scoords=[100, 101][:m])
+    Bn = da2d(B, "nb", m, 1, feat="y", fcoords=[7.0], scoords=[100, 101][:m])
+    B.covers("Stacker.transform (Dataset variables are matched by name)")
+    t1 = model.transform(xr.Dataset({"A": An, "B": Bn}))
+    try:
+        t2 = model.transform(xr.Dataset({"B": Bn, "A": An}))
+    except (ValueError, KeyError, TypeError):
+        B.check("Dataset with its variables in another order: refused", True, "")
+        return
+    B.eq("Dataset with its variables in another order: same scores as in the fit-time order", t2, t1)
+    sc = model.scores()
+    B.check("scores() keep the training labels afterwards", list(sc["time"].values) == list(A["time"].values), str(list(sc["time"].values)))
+
+
 def h_cross_multiindex(B, cls="MCA", p=2, q=2):
     """cross-set model fitted along two sample dimensions; each field of new data alone, on another sample grid of another size"""
     X = xr.DataArray(B.array((2, 2, p), "x"), dims=("t1", "t2", "x"), coords={"t1": ["a", "b"], "t2": [0, 1], "x": XS[:p]}, name="v_x")
@@ -253,6 +273,7 @@ def configs(tier):
     add("h_single", "EOF|normalized|disjoint", cls="EOF", labels="disjoint", normalized=True)
     add("h_single", "EOF|m1|disjoint", cls="EOF", labels="disjoint", m=1)
     add("h_multiindex", "EOF|two sample dims")
+    out.append({"key": "EOF|dataset|new data lists its variables in another order", "fn": "h_dataset_variable_order", "params": {}})
     out.append({"key": "MCA|two sample dims|one field at a time", "fn": "h_cross_multiindex", "params": {"cls": "MCA"}, "options": {"full_rank": True}})
     add("h_multi", "multi.CCA|new data")
     add("h_index_kind_mismatch", "EOF|fit MultiIndex sample, new plain index")
